@@ -93,6 +93,16 @@ def kind_of(kind_text):
     raise ValueError("matcher kind %r" % (kind_text,))
 
 
+def half_codes(kind_text):
+    """(reverse, forward) codes of the half validators in the hook's kind text: 0 none, 1 Simple, 2 Dfa"""
+    import re
+    m = re.search(r"NonGreedy \{ reverse: (\w+), forward: (\w+) \}", kind_text)
+    if not m:
+        return (0, 0)
+    code = {"none": 0, "Simple": 1, "Dfa": 2}
+    return (code[m.group(1)], code[m.group(2)])
+
+
 def g_mods(m):
     return "{| m_fullword := %s; m_wide := %s; m_ascii := %s; m_nocase := %s; m_dot_all := %s |}" % tuple(
         gbool(x) for x in m)
